@@ -275,6 +275,16 @@ func (ex *Exec) localByName(env *Env, name string) *Value {
 				return env.fr.params[i]
 			}
 		}
+		// variable of an enclosing function captured by this closure
+		for i, fv := range fn.FreeVars {
+			if fv.Name() == name && i < len(env.fr.freeVars) {
+				cell := env.fr.freeVars[i]
+				if _, isPtr := cell.T.Underlying().(*types.Pointer); isPtr {
+					return ex.loadRaw(env.localsState(), ex.resolve(cell))
+				}
+				return cell
+			}
+		}
 		return nil
 	}
 	if cell, ok := env.localsState().locals[a]; ok {
